@@ -52,14 +52,15 @@ PROPS = {
         explanation='the local steps that keep child lists and parent links in agreement: XmlElement::insert_by_id, XmlDocument::insert_by_id (with its nested helper add_or_insert) and XmlAttribute::insert_by_id either refuse and change nothing (child list, parent links) or leave the value listed exactly once under this parent with its parent link pointing here; XmlElement::delete_by_id removes exactly that child and clears its parent link, and changes nothing for an unknown id; the trait defaults append / insert_before leave the id of the inserted node resolving to the very handle the child list now owns (Context.id_map), which is what parent_node() of its children goes through; Context::node resolves a registered id for as long as the item itself is alive (unit c12_idmap, over uninterpreted ownership predicates); XmlItem::remove_from_parent (unit c12_remove, over an explicit world of parent links and child lists) takes a node that its live parent lists out of that list and clears its parent link, touches no other list, and changes nothing for a node without a parent',
     ),
     'C10': dict(
-        standin_ops=['ctx.script'],
-        verus_units=['c10_ns'],
+        standin_ops=['ctx.script', 'info.namespace_names'],
+        verus_units=['c10_ns', 'c10_scope'],
         level='proof',
         trusted_base=TRUSTED_VERUS,
         assumptions=[A2 + ' (Vec::retain with the prefix closure = keep the bindings of other prefixes in order; iter().find = first match; Option::map(to_string), to_string, String == String as equality of character sequences)', A8,
-                     'the expanded name the DOCUMENT side computes for a node (dom as_expanded_name) is an uninterpreted function of the node'],
-        not_decided='the document side of C10: nearest enclosing declaration, xmlns="", attributes not taking the default namespace, the xml prefix, inherited in-scope namespaces (XmlElement::namespaces, in_scope_namespace, find_nameapce_uri, namespace_name over the live element graph); ns_att_name in the parser; the NameTest::Namespace branch of eval_node_test',
-        explanation='caller-side prefix bindings and name-test comparison: Context::add_ns makes the prefix resolve to the new URI and leaves every other prefix alone (re-binding replaces), remove_ns unbinds exactly that prefix, get_ns_uri answers the first binding, expanded_name resolves a prefixed QName through the bindings (NotFoundNamespace when unbound) and gives an unprefixed one the default binding, equal_qname compares local part and URI and never the prefix; a lemma shows that renaming prefixes injectively in bindings and QName alike leaves every resolution unchanged',
+                     'the expanded name the DOM layer computes for a node (dom as_expanded_name) is an uninterpreted function of the node in unit c10_ns',
+                     A4 + '; unit c10_scope: an element is a concrete recursive value (own namespace declarations with their normalized values, parent item as Box<XmlElement> / document / nothing); namespace_attributes() (a filter over the attribute list), normalized_value() of a declaration and the parent lookup through the id map are assumed callees; iter().any(prefix comparison) and Vec::retain(non-empty URI) are shims with those contracts; preconditions: at most one declaration per key on an element (well-formedness: unique attributes), no prefix spelled "xmlns"'],
+        not_decided='the DOM-level re-implementation of the same scoping (dom in_scope_namespace / as_expanded_name for elements and attributes, which XPath name tests go through); identity of namespace nodes per element (count(//namespace::*) counts an inherited declaration once, not once per element: observed, outside every contract here); ns_att_name in the parser; the NameTest::Namespace branch of eval_node_test',
+        explanation='caller-side prefix bindings and name-test comparison: Context::add_ns makes the prefix resolve to the new URI and leaves every other prefix alone (re-binding replaces), remove_ns unbinds exactly that prefix, get_ns_uri answers the first binding, expanded_name resolves a prefixed QName through the bindings (NotFoundNamespace when unbound) and gives an unprefixed one the default binding, equal_qname compares local part and URI and never the prefix; a lemma shows that renaming prefixes injectively in bindings and QName alike leaves every resolution unchanged; document side at the information-set level (unit c10_scope, specification written from Namespaces in XML: nearest enclosing declaration, empty value un-declares, xml bound at the document): XmlElement::namespaces lists the own declarations, in_scope_namespace returns exactly one item per key that resolves with the resolved URI (sound, complete, no key twice; induction through the recursive call on the parent), find_nameapce_uri(prefix) and the element namespace_name() answer resolve(element, prefix or "xmlns"), XmlAttribute::namespace_name() is None for an unprefixed attribute and resolves a prefix in the scope of the owner element',
     ),
     'C15': dict(
         standin_ops=['info.text.insert', 'info.comment.insert', 'info.cdata.insert', 'dom.text.insert_data', 'dom.text.append_data', 'dom.comment.insert_data', 'dom.comment.append_data', 'dom.cdata.insert_data', 'dom.cdata.append_data'],
@@ -202,7 +203,7 @@ MANIFEST_TEXT = {
         technique='contract-based deductive verification (Verus pre/postconditions with a ghost parent map on extracted real functions)',
         design_ref='DESIGN.md §9'),
     'C10': dict(
-        level_text='Proof (Verus, all binding lists, prefixes, URIs, QNames) for the expression side of C10 only: add_ns/remove_ns/get_ns_uri/expanded_name of the evaluation context implement "the first binding of the prefix, re-binding replaces", equal_qname compares (local part, namespace URI) and ignores prefixes, and prefix renaming is proved not to change any resolution. The document side (scoping of xmlns declarations in the tree) is not decided.',
+        level_text='Proof (Verus). Document side, information-set level (all ancestor chains, all declaration lists): in_scope_namespace / find_nameapce_uri / namespace_name of elements and attributes compute the nearest enclosing declaration, xmlns="" un-declares, the default namespace applies to unprefixed elements and never to attributes, xml is bound at the document. Expression side (all binding lists, prefixes, URIs, QNames): add_ns/remove_ns/get_ns_uri/expanded_name of the evaluation context implement "the first binding of the prefix, re-binding replaces", equal_qname compares (local part, namespace URI) and ignores prefixes, and prefix renaming is proved not to change any resolution. The DOM-level copy of the scoping code (which XPath name tests use) is not decided.',
         level_note='Trusted: Verus+Z3, extractor, std shims for retain/find/to_string/string equality; three induction lemmas proved in the unit. Not decided: everything that walks the element tree.',
         technique='contract-based deductive verification (Verus postconditions over an abstract binding list on extracted real functions, lemmas by induction)',
         design_ref='DESIGN.md §9'),
